@@ -120,8 +120,10 @@ func applyStringConstraints(constraints *validate.FieldRules, schema *base.Schem
 	if len(stringConstraints.GetIn()) > 0 {
 		schema.Enum = make([]*yaml.Node, 0, len(stringConstraints.GetIn()))
 		for _, value := range stringConstraints.GetIn() {
+			// tagged as strings: a member like 007, true or ~ must not be read as another YAML type
 			schema.Enum = append(schema.Enum, &yaml.Node{
 				Kind:  yaml.ScalarNode,
+				Tag:   "!!str",
 				Value: value,
 			})
 		}
@@ -132,6 +134,7 @@ func applyStringConstraints(constraints *validate.FieldRules, schema *base.Schem
 		val := stringConstraints.GetConst()
 		schema.Const = &yaml.Node{
 			Kind:  yaml.ScalarNode,
+			Tag:   "!!str",
 			Value: val,
 		}
 	}
